@@ -1,6 +1,6 @@
 (* Extraction of the mark/sweep model (C01) and of the executable reachability used as the
    specification side of the correspondence.  ExtrOcamlBasic only. *)
-From Coq Require Import List Arith NArith ZArith Extraction ExtrOcamlBasic.
+From Coq Require Import List Bool Arith NArith ZArith Extraction ExtrOcamlBasic.
 From CelloV Require Import Generated HeapGraph MarkSweep.
 
 Definition gm_step := step gc_tls_recurses gc_mar_guarded.
@@ -19,8 +19,15 @@ Definition gm_reach := reach_exec.
 Definition gm_nset := @nset.
 Definition gm_ndel := @ndel.
 Definition gm_nempty := @nempty.
+(* the hypotheses of the theorems, checked at every collection point of every generated case *)
+Definition gm_hyp (s : state) (rk : word -> nat) : bool * bool * bool * bool :=
+  (wf_b (st_heap s) (st_reg s) (st_tls s),
+   rawdec_b (st_heap s) (st_reg s) rk &&
+     forallb (fun p => Nat.leb (rk p) (nraw (st_heap s) (st_reg s))) (nkeys (st_heap s)),
+   range_b (st_reg s) (st_minptr s) (st_maxptr s),
+   order_b (st_reg s) (st_order s)).
 Definition gm_z_of_n := Z.of_N.      (* conv.ml.inc refers to the extracted type z *)
 
 Extraction Language OCaml.
 Extraction "../ocaml/gen/Mark.ml" gm_step gm_step_with gm_mark gm_tls_recurses gm_mar_guarded gm_st0
-  gm_registered gm_marked gm_contents gm_tls gm_reach gm_nset gm_ndel gm_nempty gm_z_of_n.
+  gm_registered gm_marked gm_contents gm_tls gm_reach gm_nset gm_ndel gm_nempty gm_hyp gm_z_of_n.
